@@ -39,6 +39,9 @@ pub fn leaves_for(ctx: &Ctx, h: u32, special: bool) -> Vec<Felt> {
 pub enum Corr {
     None,
     Value(usize),
+    /// queried value + 2^k / sibling + 2^k: differ only above the width of a masked digest
+    ValueHigh(usize, u32),
+    SiblingHigh(usize, u32),
     Index(usize, u64),
     Sibling(usize),
     Root,
@@ -50,6 +53,8 @@ impl Corr {
         match self {
             Corr::None => json!({"c": "none"}),
             Corr::Value(i) => json!({"c": "value", "i": i}),
+            Corr::ValueHigh(i, k) => json!({"c": "value_high", "i": i, "k": k}),
+            Corr::SiblingHigh(i, k) => json!({"c": "sibling_high", "k": i, "bit": k}),
             Corr::Index(i, j) => json!({"c": "index", "i": i, "to": j}),
             Corr::Sibling(k) => json!({"c": "sibling", "k": k}),
             Corr::Root => json!({"c": "root"}),
@@ -62,6 +67,8 @@ impl Corr {
         Some(match v.get("c")?.as_str()? {
             "none" => Corr::None,
             "value" => Corr::Value(g("i")? as usize),
+            "value_high" => Corr::ValueHigh(g("i")? as usize, g("k")? as u32),
+            "sibling_high" => Corr::SiblingHigh(g("k")? as usize, g("bit")? as u32),
             "index" => Corr::Index(g("i")? as usize, g("to")?),
             "sibling" => Corr::Sibling(g("k")? as usize),
             "root" => Corr::Root,
@@ -74,6 +81,8 @@ impl Corr {
         match self {
             Corr::None => "honest",
             Corr::Value(_) => "value",
+            Corr::ValueHigh(..) => "value_high",
+            Corr::SiblingHigh(..) => "sibling_high",
             Corr::Index(..) => "index",
             Corr::Sibling(_) => "sibling",
             Corr::Root => "root",
@@ -108,6 +117,8 @@ pub fn exec(ctx: &Ctx, own: Variant, sh: &Shape, tree: Option<&Tree>, corr: &Cor
     match corr {
         Corr::None => expect = true,
         Corr::Value(i) => queries[*i].1 += Felt::ONE,
+        Corr::ValueHigh(i, k) => queries[*i].1 = add_pow2(&queries[*i].1, *k),
+        Corr::SiblingHigh(i, k) => wit[*i] = add_pow2(&wit[*i], *k),
         Corr::Index(i, j) => queries[*i].0 = fu(*j),
         Corr::Sibling(k) => wit[*k] += Felt::ONE,
         Corr::Root => root += Felt::ONE,
@@ -127,11 +138,20 @@ pub fn exec(ctx: &Ctx, own: Variant, sh: &Shape, tree: Option<&Tree>, corr: &Cor
     (expect, decommit(root, sh.h as u64, sh.f, &queries, &wit))
 }
 
+/// v + 2^k, reduced: used with k in {160, 248, 250}; all tree values are < 2^250 so the sum
+/// differs from v and from every other leaf
+fn add_pow2(v: &Felt, k: u32) -> Felt {
+    crate::kit::b2f(&(crate::kit::f2b(v) + crate::kit::pow2(k)))
+}
+
 fn corruptions(own: Variant, sh: &Shape, n_wit: usize) -> Vec<Corr> {
     let mut out = vec![Corr::None, Corr::Root];
     let n = 1u64 << sh.h;
     for i in 0..sh.qs.len() {
         out.push(Corr::Value(i));
+        for k in [160u32, 248, 250] {
+            out.push(Corr::ValueHigh(i, k));
+        }
         let cur = sh.qs[i] as u64;
         let mut targets: Vec<u64> = Vec::new();
         if sh.h <= 3 {
@@ -160,6 +180,9 @@ fn corruptions(own: Variant, sh: &Shape, n_wit: usize) -> Vec<Corr> {
     }
     for k in 0..n_wit {
         out.push(Corr::Sibling(k));
+        for b in [160u32, 248, 250] {
+            out.push(Corr::SiblingHigh(k, b));
+        }
         out.push(Corr::DeleteSibling(k));
     }
     for (vi, v) in VARIANTS.iter().enumerate() {
